@@ -19,7 +19,7 @@ func init() {
 		Explain: "Decides by effect analysis over the call graph (all built-in extensions included): (S) no store into configuration/global memory is reachable from Convert/Parse/Render outside the sync.Once initialisers, so no state can survive a call; (R) nothing reachable from Render writes AST node memory except nil-guarded memoisation of a value computed from the node itself; (N) no nondeterminism source (map iteration, time, rand, goroutines, select) is reachable per call; (E) Convert is exactly reader := NewReader(source); Parse; Render with the same source. Does NOT decide byte equality across equivalent option spellings, user-supplied extensions, or a caller-supplied Context/IDs object.",
 		Trusted: []string{"type-directed memory classes (DESIGN 2.3)", "VTA call graph with pass-site refinement (DESIGN 2.2)", "no unsafe writes (C12-X)"},
 		Assumes: []string{"user-supplied extensions, parsers, renderers and Context objects are out of scope"},
-		Rules:   []func(*World, *Report){ruleNoSharedState("C06-S"), ruleRenderReadOnly, ruleNoNondeterminism, ruleConvertShape},
+		Rules:   []func(*World, *Report){ruleNoSharedState("C06-S"), ruleStatelessSharedObjects, ruleRenderReadOnly, ruleNoNondeterminism, ruleConvertShape},
 	})
 	register(&Property{
 		ID:      "C07",
@@ -198,7 +198,12 @@ func ruleNoNondeterminism(w *World, r *Report) {
 				switch v := ins.(type) {
 				case *ssa.Range:
 					if _, isMap := v.X.Type().Underlying().(*types.Map); isMap {
-						r.Bad(w.FnKey(fn)+": range over map "+typeShort(v.X.Type()), w.InstrPos(ins), "map iteration order is random; reachable per call", w.PathTo(reach, fn)...)
+						key := w.FnKey(fn) + ": range over map " + typeShort(v.X.Type())
+						if ok, why := mapRangeKeyed(v); ok {
+							r.OK(key, w.InstrPos(ins), "per call, but order-independent: "+why)
+						} else {
+							r.Bad(key, w.InstrPos(ins), "map iteration order is random; reachable per call and its effect is not keyed by the map key ("+why+")", w.PathTo(reach, fn)...)
+						}
 					}
 				case *ssa.Go:
 					r.Bad(w.FnKey(fn)+": go statement", w.InstrPos(ins), "goroutine started per call", w.PathTo(reach, fn)...)
@@ -496,6 +501,117 @@ func ruleOnceDiscipline(w *World, r *Report) {
 			r.OK(key+": Do dominates reads", w.InstrPos(call), fmt.Sprintf("%d accesses of initialised fields in %s, all after Do", reads, w.FnKey(host)))
 		}
 	}
+	// globals written under a Once: every load elsewhere must be dominated by that Once's Do (or a wrapper that always runs it)
+	for _, oc := range onces {
+		call := cg.OnceClosures[oc]
+		onceObj := call.Common().Args[0]
+		inner := cg.Reach([]*ssa.Function{oc}, nil)
+		globals := map[*ssa.Global]bool{}
+		for _, fn := range w.moduleFuncsIn(inner) {
+			for _, wr := range WritesOf(fn) {
+				for _, root := range w.ClassifyRef(wr.Addr).Roots {
+					if g, ok := root.(*ssa.Global); ok {
+						globals[g] = true
+					}
+				}
+			}
+		}
+		if len(globals) == 0 {
+			continue
+		}
+		// wrappers: functions in which a Do on the same Once object dominates every return
+		mustDo := map[*ssa.Function]bool{}
+		isDoCall := func(ins ssa.Instruction) bool {
+			c, ok := ins.(ssa.CallInstruction)
+			if !ok {
+				return false
+			}
+			cal := c.Common().StaticCallee()
+			if cal == nil {
+				return false
+			}
+			if cal.String() == "(*sync.Once).Do" {
+				return sameAddr(c.Common().Args[0], onceObj)
+			}
+			return mustDo[cal]
+		}
+		for changed := true; changed; {
+			changed = false
+			for _, fn := range w.Funcs {
+				if mustDo[fn] || inner[fn] != nil || fn == oc {
+					continue
+				}
+				var dos []ssa.Instruction
+				for _, b := range fn.Blocks {
+					for _, ins := range b.Instrs {
+						if isDoCall(ins) {
+							dos = append(dos, ins)
+						}
+					}
+				}
+				if len(dos) == 0 {
+					continue
+				}
+				all := true
+				for _, b := range fn.Blocks {
+					ret, ok := b.Instrs[len(b.Instrs)-1].(*ssa.Return)
+					if !ok {
+						continue
+					}
+					dom := false
+					for _, d := range dos {
+						if instrDominates(d, ret) {
+							dom = true
+						}
+					}
+					if !dom {
+						all = false
+					}
+				}
+				if all {
+					mustDo[fn] = true
+					changed = true
+				}
+			}
+		}
+		nLoads := 0
+		for _, fn := range w.Funcs {
+			if _, in := inner[fn]; in {
+				continue
+			}
+			if fn.Name() == "init" {
+				continue
+			}
+			for _, b := range fn.Blocks {
+				for _, ins := range b.Instrs {
+					u, ok := ins.(*ssa.UnOp)
+					if !ok || u.Op != token.MUL {
+						continue
+					}
+					g, ok := u.X.(*ssa.Global)
+					if !ok || !globals[g] {
+						continue
+					}
+					nLoads++
+					key := fmt.Sprintf("%s: read of %s", w.FnKey(fn), g.Name())
+					dom := false
+					for _, b2 := range fn.Blocks {
+						for _, i2 := range b2.Instrs {
+							if isDoCall(i2) && instrDominates(i2, ins) {
+								dom = true
+							}
+						}
+					}
+					if dom {
+						r.OK(key, w.InstrPos(ins), "dominated by the Once's Do (or a wrapper that always runs it)")
+					} else {
+						r.Bad(key, w.InstrPos(ins), "global initialised under sync.Once is read on a path that has not passed Do: unsynchronised with the initialiser's writes")
+					}
+				}
+			}
+		}
+		r.Note("C07-O: %s guards globals; %d reads checked", w.FnKey(oc), nLoads)
+	}
 	// every shared write reachable from entries must be inside some Once-closure's reach only
 	perCall := w.perCallReach(e.All())
 	n := 0
@@ -658,3 +774,49 @@ func ruleSourceNeverWrittenSummary(w *World, r *Report) {
 }
 
 var _ = token.NoPos
+
+// ---- C06-F ------------------------------------------------------------------------
+
+// foreign methods that do not change the observable state of their receiver
+var statelessMethods = map[string]bool{
+	"(*sync.Once).Do": true, // one-time initialisation: covered by C07-O / C06-N
+}
+
+func ruleStatelessSharedObjects(w *World, r *Report) {
+	r.Rule("C06-F", "Per call, every foreign method invoked on an object rooted in shared or global memory leaves no state behind: (*regexp.Regexp) matching methods, (*sync.Once).Do, read-only table functions. A sync.Pool, bytes.Buffer, strings.Builder, rand source, mutex-protected cache etc. reachable from shared memory is state that survives the call.")
+	e := w.Entries()
+	reach := w.perCallReach(e.All())
+	n := 0
+	for _, fn := range w.moduleFuncsIn(reach) {
+		for _, b := range fn.Blocks {
+			for _, ins := range b.Instrs {
+				c, ok := ins.(ssa.CallInstruction)
+				if !ok {
+					continue
+				}
+				com := c.Common()
+				cal := com.StaticCallee()
+				if cal == nil || w.InModule(cal) || cal.Signature.Recv() == nil || len(com.Args) == 0 {
+					continue
+				}
+				info := w.ClassifyRef(com.Args[0])
+				if info.Class != MemShared {
+					continue
+				}
+				n++
+				name := cal.String()
+				key := fmt.Sprintf("%s: %s", w.FnKey(fn), name)
+				rt := cal.Signature.Recv().Type().String()
+				switch {
+				case statelessMethods[name]:
+					r.OK(key, w.InstrPos(ins), "stateless by table")
+				case rt == "*regexp.Regexp" && (strings.HasPrefix(cal.Name(), "Match") || strings.HasPrefix(cal.Name(), "Find") || cal.Name() == "String" || cal.Name() == "NumSubexp" || cal.Name() == "SubexpNames"):
+					r.OK(key, w.InstrPos(ins), "regexp matching does not change the compiled expression")
+				default:
+					r.Bad(key, w.InstrPos(ins), "method "+name+" on an object in shared memory ("+info.Why+") may keep state across calls; not in the stateless table", w.PathTo(reach, fn)...)
+				}
+			}
+		}
+	}
+	r.Expect("foreign method calls on shared objects", n, 10)
+}
